@@ -85,15 +85,22 @@ func TestWorker(t *testing.T) {
 			rep.Discards[r.Discard]++
 			continue
 		}
+		const setCap = 400000 // per worker; beyond it distinct counts are a lower bound
 		if r.NonTrivial {
 			rep.NonTrivial++
-			hashes[r.Hash] = struct{}{}
+			if len(hashes) < setCap {
+				hashes[r.Hash] = struct{}{}
+			} else {
+				rep.Stats["distinct-count-capped"] = 1
+			}
 		}
-		if r.SchedHash != 0 {
+		if r.SchedHash != 0 && len(scheds) < setCap {
 			scheds[r.SchedHash] = struct{}{}
 		}
 		for _, s := range r.StateHash {
-			states[s] = struct{}{}
+			if len(states) < setCap {
+				states[s] = struct{}{}
+			}
 		}
 		if len(rep.Samples) < maxSamples && r.NonTrivial && (i/nw)%7 == 0 {
 			rep.Samples = append(rep.Samples, r.Decoded)
